@@ -51,6 +51,7 @@ def provisions(text, root, prefix):
     if len(heads) != len(elems):
         return []   # the simple line/element correspondence does not hold for this text (e.g. keyword-looking text)
     out = []
+    all_ids = {n[1].get('eId') for n, _, _ in eidlib.iter_elems(r['xml'])}
     # "uniquely numbered": no other hierarchical element with the same parent prefix, name and cleaned number
     keys = {}
     info = []
@@ -68,6 +69,9 @@ def provisions(text, root, prefix):
             continue
         if not cn or keys[key] != 1:
             continue
+        exp = (parent + '__' if parent else '') + ABBR.get(node[0], node[0]) + '_' + cn
+        if node[1].get('eId', '') != exp and exp in all_ids:
+            continue   # a genuine clash (another element, e.g. a blockList 'list_1' next to LIST 1, holds the id): the suffixed eId is not derived from the number alone
         out.append(('\n'.join(block_of(lines, i)) + '\n', parent, node, i))
     return out
 
@@ -141,6 +145,14 @@ def twin_doc(rng):
     return '\n'.join(lines) + '\n'
 
 
+# documents that run first on every seed (shapes that random generation reaches only now and then)
+CORPUS = [('SEC 2\n  SUBSEC (1)\n    SUBSEC (1)\n      x\n    SUBSEC (2)\n      y\n', 'act'),          # same type and number as the direct parent
+          ('PART 1\n  PARA (1)\n    PARA 1.\n      x\n      SUBPARA (a)\n        y\n', 'act'),         # ... up to punctuation
+          ('CHAPTER 1\n  SECTION 3\n    SEC 3\n      x\n', 'act'),                                       # ... through a synonym
+          ('SEC 1\n  ITEMS\n    ITEM (a)\n      x\n  LIST 1\n    y\n', 'doc'),                            # blockList and LIST share the abbreviation
+          ('PART A\n  SEC 1\n    x{{FOOTNOTE 1}}\n  SEC 2\n    y{{FOOTNOTE 1}}\n    FOOTNOTE 1\n      n\n', 'act')]
+
+
 def run(ctx, info):
     rng = ctx.rng
     failures = []
@@ -151,11 +163,13 @@ def run(ctx, info):
     nprov = nb = 0
     known = {}
     frag_cases = []
-    for _ in range(n):
+    for it in range(n + len(CORPUS)):
         root = rng.choice(['act', 'bill', 'doc', 'statement', 'judgment', 'debateReport'])
         pfx = rng.choice(['', '', 'att_3'])
         k = rng.random()
-        text = gen.doc_text(rng, root, corners=0.25, attrs_p=0.2, scatter=False).replace('\n\n', '\n') if k < 0.7 else twin_doc(rng) if k < 0.9 else cross_fn_doc(rng)
+        text = CORPUS[it][0] if it < len(CORPUS) else gen.doc_text(rng, root, corners=0.25, attrs_p=0.2, scatter=False).replace('\n\n', '\n') if k < 0.7 else twin_doc(rng) if k < 0.9 else cross_fn_doc(rng)
+        if it < len(CORPUS):
+            root = CORPUS[it][1]
         if text[:1] == ' ':
             # the first line's own indentation is discarded by pre_parse (finding F13 of C12); cut provisions from consistently laid out text
             text = 'PREFACE\n  x\nBODY\n' + text if root in ('act', 'bill', 'doc', 'statement', 'debateReport') else 'INTRODUCTION\n' + text
